@@ -31,7 +31,9 @@ CHECKS = {
              "row-group and page flushes, close) and is model-checked for conservation / limits / page partition. TLC "
              "simulations produce call histories x option vectors; the harness executes them through three write APIs on "
              "a 20-field row type with boundary values and reads the file back three ways; WriterMon.tla replays the "
-             "logged calls through the same TLA+ operators and compares row groups, order and bit-level row equality.",
+             "logged calls through the same TLA+ operators and compares row groups, order and bit-level row equality. "
+             "A sample of the histories runs again at scale (high-cardinality values, ~9000 rows, half with recycled pool "
+             "memory overwritten); the option vector includes the page buffer pool.",
         note="Value fidelity is observed through boundary-value concretisation (tokens), not enumerated by TLC; one static "
              "row type (schema shapes are C03's universe); histories <=7 calls.",
         technique="TLA+ model (TLC exhaustive) + TLC-simulated histories replayed on the code + TLC trace monitor sharing the model's operators",
@@ -43,8 +45,10 @@ CHECKS = {
              "flushFilterPages strategies, pre-sizing, reset) and TLC checks written <= filter for every short history. "
              "TLC-simulated histories are executed for nine physical types across entry paths (WriteRows, ColumnWriters, "
              "WriteRowGroup from buffer / verbatim copy / re-encode) and filter options; BloomMon.tla requires every value "
-             "stored in a chunk to check true against that chunk's filter.",
-        note="Hashing is abstract in the model; real hashing is exercised per type by the harness with a few values per token. "
+             "stored in a chunk to check true against that chunk's filter, and the probe of a reader written from the format "
+             "document (Sbbf.tla: block index, salted masks; XXHash.tla: XXH64 of the PLAIN bytes) to find it in the bits "
+             "that lie in the file.",
+        note="Hashing is abstract in Bloom.tla and concrete in XXHash.tla (self-checked on published digests). "
              "Encrypted bloom filters are C18's.",
         technique="TLA+ model (TLC exhaustive) + TLC-simulated histories replayed on the code + TLC trace monitor",
         design_ref="DESIGN.md section 5 C07",
@@ -201,7 +205,8 @@ CHECKS = {
              "histories x option vectors the harness injects sink failures at write-call indexes and byte offsets, opens "
              "strict prefixes of the good file, and reads through a ReaderAt that fails or short-reads at call indexes; "
              "IOMon.tla requires an error for every fired sink fault / truncation and complete rows whenever no error "
-             "was reported.",
+             "was reported. A further stage binds the page buffers of every BufferPool implementation to PageBuffer.tla: "
+             "TLC-simulated Write/Read/Seek/WriteTo/recycle histories, every result replayed by BufMon.tla.",
         note="Quick tier samples <=30 positions per fault kind and scenario (boundaries +-1 always included); thorough "
              "enumerates up to 1500 per kind (all offsets and prefixes of files <=6 kB). Sinks obey the io.Writer contract.",
         technique="TLA+ error-propagation model (TLC exhaustive) + model-generated histories x enumerated I/O faults on the code + TLC trace monitor",
@@ -242,8 +247,9 @@ CHECKS = {
         text="Reset.tla models which slice-typed footer fields alias the live column writers once a row group is "
              "committed and what Writer.Reset / format.RowGroup.Reset do to them; TLC checks that right after Reset the "
              "writer equals a fresh one. Pairs (prior history with sink failures or abandonment, history H) cut from TLC "
-             "simulations of Writer.tla are executed on a reused writer, a fresh writer, another goroutine and in the "
-             "purego build; DetMon.tla requires all sha256 digests of a scenario to agree.",
+             "simulations of Writer.tla are executed on a reused writer, a fresh writer, a writer whose recycled pool "
+             "memory is overwritten, another goroutine and in the purego build (a few scenarios at scale); DetMon.tla "
+             "requires all sha256 digests of a scenario to agree.",
         note="One row type; SortingWriter and GenericBuffer.Reset not driven; map fields hold <=1 entry; no encryption.",
         technique="TLA+ aliasing model (TLC exhaustive) + TLC-generated histories replayed on two builds + TLC trace monitor",
         design_ref="DESIGN.md section 5 C17",
